@@ -121,6 +121,12 @@ pub fn check(h: &FHistory, ex: &FExec, obs: &mut Obs) -> Vec<Violation> {
                             }
                         }
                     }
+                    // ... and the segment places its first sample at the decode time it was written with
+                    if let (Some(base), Some(first)) = (frag.base_decode_time, queue.first()) {
+                        if base != first.1 {
+                            out.push(v("sample-altered|decode-time".into(), format!("op #{}: segment starts at decode time {} but its first sample was written with dts {}", i, base, first.1)));
+                        }
+                    }
                     // all samples inside the mdat payload, tiling it
                     if let Some((ps, pl)) = frag.mdat {
                         let mut cur = ps as u64;
